@@ -369,7 +369,7 @@ def firstErr (fl : Flavour) (outs : List Outcome) : List Op → Option Exn
     | some x => some x
     | none => firstErr fl outs r
   | .body o :: r =>
-    match failureOf o with
+    match poolFailureOf o with      -- the body's own exception (its cancellation is the op `cancelCaller`)
     | some x => some x
     | none => firstErr fl outs r
   | .cancelCaller :: _ => some .cancelled
